@@ -14,16 +14,29 @@ pkg_config('explicit', version='1.2', includes=[inc], libs=[lib], requires=[('de
 pkg_config('emptyinc', auto_fill=True, includes=[], version='0.5')
 pkg_config('emptylibs', auto_fill=True, libs=[], version='0.6')
 pkg_config(auto_fill=True)
+z = package('z', '>=1.0')
+pkg_config('withpkg', version='2.0', requires=[z])
+pkg_config('priv', version='1.0', libs=[lib], libs_private=[st])
+mine = pkg_config('mine', version='1.0', includes=[inc], libs=[lib], options=['-DGREETING="hi there"'])
+executable('consumer', files=['c.c'], packages=[mine])
 """
 # package -> form -> (cflags, libs, version, requires) the description declares ({S} source dir, {B} build dir,
 # {P} prefix); the dependency `dep` contributes its own flags behind them
 DEP_C, DEP_L = ['-I/opt/dep/include'], ['-L/opt/dep/lib', '-ldep']
+# the package `z` is known to pkg-config as the module `zcore` (what mopack's `pcnames` says; stub mopack)
+Z_C, Z_L = ['-I/opt/z/include'], ['-L/opt/z/lib', '-lzcore']
 EXPECT = {
     'explicit': {'installed': (['-I{P}/include', '-DEXP=1'] + DEP_C, ['-pthread', '-L{P}/lib/my lib', '-lmylib'] + DEP_L, '1.2', 'dep >= 1.0'),
                  'uninstalled': (['-I{S}/include dir', '-DEXP=1'] + DEP_C, ['-pthread', '-L{B}/my lib', '-lmylib'] + DEP_L, '1.2', 'dep >= 1.0')},
     'emptyinc': {'installed': ([], ['-L{P}/lib/my lib', '-L{P}/lib', '-lmylib', '-lstat'], '0.5', ''),
                  'uninstalled': ([], ['-L{B}/my lib', '-L{B}', '-lmylib', '-lstat'], '0.5', '')},
     'emptylibs': {'installed': (['-I{P}/include'], [], '0.6', ''), 'uninstalled': (['-I{S}/include dir'], [], '0.6', '')},
+    'withpkg': {'installed': (Z_C, Z_L, '2.0', 'zcore >= 1.0'), 'uninstalled': (Z_C, Z_L, '2.0', 'zcore >= 1.0')},
+    # private libraries are handed to static consumers only
+    'priv': {'installed': ([], ['-L{P}/lib/my lib', '-lmylib'], '1.0', '', ['-L{P}/lib/my lib', '-L{P}/lib', '-lmylib', '-lstat']),
+             'uninstalled': ([], ['-L{B}/my lib', '-lmylib'], '1.0', '', ['-L{B}/my lib', '-L{B}', '-lmylib', '-lstat'])},
+    'mine': {'installed': (['-I{P}/include', '-DGREETING="hi there"'], ['-L{P}/lib/my lib', '-lmylib'], '1.0', ''),
+             'uninstalled': (['-I{S}/include dir', '-DGREETING="hi there"'], ['-L{B}/my lib', '-lmylib'], '1.0', '')},
     'proj': {'installed': (['-I{P}/include'], ['-L{P}/lib/my lib', '-L{P}/lib', '-lmylib', '-lstat'], '3.1', ''),
              'uninstalled': (['-I{S}/include dir'], ['-L{B}/my lib', '-L{B}', '-lmylib', '-lstat'], '3.1', '')},
 }
@@ -59,12 +72,26 @@ class PkgConfigRun(Bounded):
             w(src + '/include dir/a.h', '')
             w(src + '/l.c', 'int l(void) { return 0; }\n')
             w(src + '/s.c', 'int s(void) { return 0; }\n')
+            w(src + '/c.c', '#include "a.h"\n#include <string.h>\nint l(void);\n'
+                            'int main(void) { return l() + strcmp(GREETING, "hi there"); }\n')
+            w(top + '/deps/zcore.pc', 'Name: zcore\nDescription: z\nVersion: 1.2\nCflags: -I/opt/z/include\n'
+                                      'Libs: -L/opt/z/lib -lzcore\n')
+            # no usable mopack in the sandbox: a stub that knows the package `z` as the pkg-config module `zcore`
+            w(top + '/bin/mopack', '#!/bin/sh\ncase "$1" in linkage) for a; do last=$a; done\n'
+                                   'case "$last" in z) echo \'{"name": "z", "type": "pkg_config", "pcnames": ["zcore"], '
+                                   '"pkg_config_path": ["%s/deps"]}\';; *) echo \'{"error": "unknown"}\'; exit 1;; esac;; esac\n'
+                                   % top)
+            os.chmod(top + '/bin/mopack', 0o755)
             w(top + '/deps/dep.pc', 'Name: dep\nDescription: d\nVersion: 1.5\nCflags: -I/opt/dep/include\n'
                                     'Libs: -L/opt/dep/lib -ldep\n')
             lp = top + '/bin/bfg9000'
             w(lp, "#!/bin/sh\nPYTHONPATH=%s exec /venv/bin/python -c 'import sys; sys.argv[0] = \"%s\"; "
                   "from bfg9000.driver import main; sys.exit(main())' \"$@\"\n" % (REPO, lp))
             os.chmod(lp, 0o755)
+            dp = top + '/bin/bfg9000-depfixer'
+            w(dp, "#!/bin/sh\nPYTHONPATH=%s exec /venv/bin/python -c 'import sys; sys.argv[0] = \"%s\"; "
+                  "from bfg9000.depfixer import main; sys.exit(main())' \"$@\"\n" % (REPO, dp))
+            os.chmod(dp, 0o755)
             env = dict(os.environ, PATH=top + '/bin:/venv/bin:' + os.environ['PATH'], PKG_CONFIG_PATH=top + '/deps')
             env.pop('MAKEFLAGS', None)
             r = subprocess.run([lp, 'configure-into', src, b, '--backend=make', '--no-resolve-packages',
@@ -85,7 +112,7 @@ class PkgConfigRun(Bounded):
                     if tok[:2] in ('-I', '-L') and len(tok) > 2:
                         return tok[:2] + os.path.normpath(tok[2:])
                     return tok
-                want_c, want_l, want_v, want_r = EXPECT[pkg][form]
+                want_c, want_l, want_v, want_r = EXPECT[pkg][form][:4]
                 fmt = lambda xs: [norm(x.format(P=prefix, S=src, B=b)) for x in xs]       # noqa: E731
                 rc, out, err = q('--cflags')
                 if rc != 0 or [norm(t) for t in shlex.split(out)] != fmt(want_c):
@@ -95,12 +122,28 @@ class PkgConfigRun(Bounded):
                 if rc != 0 or [norm(t) for t in shlex.split(out)] != fmt(want_l):
                     return self.fail(case, raw, 'consumers_get_exactly_the_declared_link_flags', form=form,
                                      got=out, expected=fmt(want_l), stderr=err[:200])
+                if len(EXPECT[pkg][form]) > 4:
+                    want_s = fmt(EXPECT[pkg][form][4])
+                    rc, out, err = q('--static', '--libs')
+                    got_s = [norm(t) for t in shlex.split(out)]
+                    # same directories, same libraries in the same order
+                    if rc != 0 or {t for t in got_s if t[:2] == '-L'} != {t for t in want_s if t[:2] == '-L'} or \
+                            [t for t in got_s if t[:2] != '-L'] != [t for t in want_s if t[:2] != '-L']:
+                        return self.fail(case, raw, 'static_consumers_get_the_private_libraries', form=form,
+                                         got=out, expected=want_s, stderr=err[:200])
                 rc, out, err = q('--modversion')
                 if out != want_v:
                     return self.fail(case, raw, 'declared_version', form=form, got=out, expected=want_v)
                 rc, out, err = q('--print-requires')
                 if out != want_r:
                     return self.fail(case, raw, 'declared_requirements', form=form, got=out, expected=want_r)
+            if pkg == 'mine':
+                # a consumer inside the project, given the package object that pkg_config() returned
+                for goal in ('all', 'consumer'):
+                    m = subprocess.run(['make', '-C', b, goal], env=env, capture_output=True, text=True, timeout=300)
+                    if m.returncode != 0:
+                        return self.fail(case, raw, 'consumer_builds_against_the_project', goal=goal,
+                                         output=(m.stdout + m.stderr)[-700:])
             return True
         finally:
             shutil.rmtree(top, ignore_errors=True)
